@@ -371,6 +371,11 @@ func (s *session) SetID(newID string) {
 // The file descriptor fd is guaranteed to remain valid while
 // f executes but not after f returns.
 func (s *session) ControlFD(f func(fd uintptr)) error {
+	// the dial hooks of a redial round run under the session lock, which the
+	// goroutine that calls them holds: taking it again would block for ever
+	if s.checkStatus(statusPreparing) {
+		return s.socket.ControlFD(f)
+	}
 	s.lock.RLock()
 	defer s.lock.RUnlock()
 	return s.socket.ControlFD(f)
